@@ -75,7 +75,7 @@ func timeoutClass(sc *scenario) string {
 	switch {
 	case sc.Timeout == 0:
 		return "none"
-	case sc.Ctx != "deadline":
+	case !sc.hasDeadline():
 		return "only-limit"
 	case sc.Timeout < sc.Deadline:
 		return "shorter-than-ctx-deadline"
@@ -170,8 +170,8 @@ func account(sc *scenario, n int, o *outcome, v verdict) {
 
 func drawConfig(t *rapid.T) *scenario {
 	sc := &scenario{}
-	sc.Ctx = rapid.SampledFrom([]string{"background", "todo", "cancel", "cancel", "value", "custom", "deadline", "deadline"}).Draw(t, "ctx")
-	if sc.Ctx == "deadline" {
+	sc.Ctx = rapid.SampledFrom([]string{"background", "todo", "cancel", "cancel", "value", "custom", "deadline", "deadline", "cancelcause", "causechild", "deadlinecause", "deadlinecause-child"}).Draw(t, "ctx")
+	if sc.hasDeadline() {
 		sc.Deadline = 10*rapid.IntRange(0, 9).Draw(t, "ctxDeadline10") + 3
 	}
 	if rapid.IntRange(0, 2).Draw(t, "hasTimeout") > 0 {
@@ -294,7 +294,7 @@ func TestStalledPeerLimits(t *testing.T) {
 		if sc.cancellable() && rapid.Bool().Draw(rt, "timedCancel") {
 			pl = plan{Kind: "at", At: 10*rapid.IntRange(0, 9).Draw(rt, "at10") + 7}
 		}
-		if sc.Timeout == 0 && sc.Ctx != "deadline" && pl.Kind == "never" {
+		if sc.Timeout == 0 && !sc.hasDeadline() && pl.Kind == "never" {
 			sc.Timeout = 10*rapid.IntRange(0, 9).Draw(rt, "timeout10b") + 5
 		}
 		sc.Plan = pl
@@ -347,29 +347,29 @@ func TestSuccessRace(t *testing.T) {
 		sc.Plan = plan{Kind: "never"}
 		switch rapid.IntRange(0, 6).Draw(rt, "race") {
 		case 0:
-			sc.Ctx = rapid.SampledFrom([]string{"cancel", "value", "custom", "deadline"}).Draw(rt, "cctx")
+			sc.Ctx = rapid.SampledFrom([]string{"cancel", "value", "custom", "deadline", "cancelcause", "causechild", "deadlinecause", "deadlinecause-child"}).Draw(rt, "cctx")
 			sc.Plan = plan{Kind: "io", IO: n - 1, Before: true, Forced: true}
 		case 1:
-			sc.Ctx = rapid.SampledFrom([]string{"cancel", "value", "custom", "deadline"}).Draw(rt, "cctx")
+			sc.Ctx = rapid.SampledFrom([]string{"cancel", "value", "custom", "deadline", "cancelcause", "causechild", "deadlinecause", "deadlinecause-child"}).Draw(rt, "cctx")
 			sc.Plan = plan{Kind: "io", IO: n - 1, Forced: true}
 		case 2:
-			sc.Ctx = rapid.SampledFrom([]string{"cancel", "value", "custom", "deadline"}).Draw(rt, "cctx")
+			sc.Ctx = rapid.SampledFrom([]string{"cancel", "value", "custom", "deadline", "cancelcause", "causechild", "deadlinecause", "deadlinecause-child"}).Draw(rt, "cctx")
 			sc.Plan = plan{Kind: "io", IO: n - 1}
 		case 3:
-			sc.Ctx = rapid.SampledFrom([]string{"cancel", "value", "custom", "deadline"}).Draw(rt, "cctx")
+			sc.Ctx = rapid.SampledFrom([]string{"cancel", "value", "custom", "deadline", "cancelcause", "causechild", "deadlinecause", "deadlinecause-child"}).Draw(rt, "cctx")
 			sc.Plan = plan{Kind: "after-return"}
 		case 4:
-			sc.Ctx, sc.Deadline = "deadline", near(3)
+			sc.Ctx, sc.Deadline = rapid.SampledFrom([]string{"deadline", "deadlinecause", "deadlinecause-child"}).Draw(rt, "dctx"), near(3)
 		case 5:
 			sc.Timeout = near(5) // with whatever context was drawn
 		default:
-			sc.Ctx = rapid.SampledFrom([]string{"cancel", "value", "custom"}).Draw(rt, "cctx")
+			sc.Ctx = rapid.SampledFrom([]string{"cancel", "value", "custom", "cancelcause", "causechild"}).Draw(rt, "cctx")
 			sc.Plan = plan{Kind: "at", At: near(7)}
 		}
-		if sc.Ctx == "deadline" && sc.Deadline < done+100 && sc.Plan.Kind != "never" {
+		if sc.hasDeadline() && sc.Deadline < done+100 && sc.Plan.Kind != "never" {
 			sc.Deadline = done + 103 // the explicit cancel is the event of this case
 		}
-		if sc.Ctx == "deadline" && sc.Deadline == 0 {
+		if sc.hasDeadline() && sc.Deadline == 0 {
 			sc.Deadline = done + 103
 		}
 		o := runCase(t, sc)
@@ -439,6 +439,10 @@ var enumCfgs = []enumCfg{
 	{ctx: "custom", timeout: 995, wbuf: 200},
 	{ctx: "value", rbuf: 32},
 	{ctx: "cancel", slowDL: true},
+	{ctx: "cancelcause"},
+	{ctx: "causechild", timeout: 995, wbuf: 64},
+	{ctx: "deadlinecause", deadline: 993, timeout: 985},
+	{ctx: "deadlinecause-child", deadline: 993, slowDL: true},
 	{ctx: "cancel", wrap: "tlsclient"},
 	{ctx: "value", wrap: "wrapconn", timeout: 995},
 	{ctx: "deadline", deadline: 993, wrap: "both", wbuf: 64, slowDL: true},
@@ -515,7 +519,7 @@ func TestEveryIOIndex(t *testing.T) {
 			}
 		}
 	}
-	hx.Part("cancel before/after every handshake I/O index (forced) + unforced race at the last + pre/dial-return/after-return/never, 11 configurations x 11 peers + 2 crypto/tls configurations x 5 peers", total, true)
+	hx.Part("cancel before/after every handshake I/O index (forced) + unforced race at the last + pre/dial-return/after-return/never, 15 configurations x 11 peers + 2 crypto/tls configurations x 5 peers", total, true)
 }
 
 // TestEveryExpiryInstant enumerates the timer-driven ends: for stalling and
@@ -540,6 +544,15 @@ func TestEveryExpiryInstant(t *testing.T) {
 		{"ctx-deadline", func(sc *scenario, k int) { sc.Ctx, sc.Deadline = "deadline", 10*k+3 }},
 		{"ctx-deadline+longer-timeout", func(sc *scenario, k int) { sc.Ctx, sc.Deadline, sc.Timeout = "deadline", 10*k+3, 10*k+15 }},
 		{"ctx-deadline+shorter-timeout", func(sc *scenario, k int) { sc.Ctx, sc.Deadline, sc.Timeout = "deadline", 10*k+13, 10*k+5 }},
+		{"ctx-deadline-cause", func(sc *scenario, k int) { sc.Ctx, sc.Deadline = "deadlinecause", 10*k+3 }},
+		{"ctx-timeout-cause-child+longer-timeout", func(sc *scenario, k int) {
+			sc.Ctx, sc.Deadline, sc.Timeout = "deadlinecause-child", 10*k+3, 10*k+15
+		}},
+		{"timed-cancel-cause", func(sc *scenario, k int) { sc.Ctx, sc.Plan = "cancelcause", plan{Kind: "at", At: 10*k + 7} }},
+		{"timed-cancel-cause/child+later-timeout", func(sc *scenario, k int) {
+			sc.Ctx, sc.Timeout, sc.Plan = "causechild", 10*k+15, plan{Kind: "at", At: 10*k + 7}
+		}},
+		{"timeout/cancelcause", func(sc *scenario, k int) { sc.Ctx, sc.Timeout = "cancelcause", 10*k+5 }},
 		{"timed-cancel", func(sc *scenario, k int) { sc.Ctx, sc.Plan = "cancel", plan{Kind: "at", At: 10*k + 7} }},
 		{"timed-cancel/custom+later-timeout", func(sc *scenario, k int) {
 			sc.Ctx, sc.Timeout, sc.Plan = "custom", 10*k+15, plan{Kind: "at", At: 10*k + 7}
@@ -600,7 +613,7 @@ func TestEveryExpiryInstant(t *testing.T) {
 			}
 		}
 	}
-	hx.Part("11 kinds of limit x 8 instants x (5 stalling/slow peers + 2 peers stalling inside the crypto/tls handshake) x NetDial delay {0,20ms} x {default write buffer, 64-byte write buffer, slow SetDeadline, TLSClient+WrapConn wrappers}", total, true)
+	hx.Part("16 kinds of limit x 8 instants x (5 stalling/slow peers + 2 peers stalling inside the crypto/tls handshake) x NetDial delay {0,20ms} x {default write buffer, 64-byte write buffer, slow SetDeadline, TLSClient+WrapConn wrappers}", total, true)
 }
 
 // ---------------------------------------------------------------------------
